@@ -21,7 +21,7 @@ ASSUMPTIONS = ['batch vs stream: max-abs difference <= 1e-12 (a batch constructo
                'the streaming instance is created without data but with the same effective configuration and started from the first row of the batch run',
                'Madgwick\'s default gain depends on whether magnetometer data was given to the constructor (documented default); both runs get the same explicit gain',
                'bounded: histories of length 5 over 3 sample symbols, 2 live instances x 3 updates + 1 construction event']
-REQUIRED_CLASSES = ['batch=stream', 'repeat', 'schedule', 'shared-weights']
+REQUIRED_CLASSES = ['batch=stream', 'repeat', 'schedule', 'shared-weights', 'param-pair']
 
 S = [  # (gyr, acc, mag) sample symbols
     (np.array([0.01, -0.02, 0.03]), np.array([0.1, 0.2, 9.7]), np.array([22.0, 1.0, 40.0])),
@@ -199,6 +199,83 @@ def job_shared_weights(ctx):
     ctx.sample({'shared_weights': [1.0, 2.0]})
 
 
+def _variants(r):
+    """One-parameter variations of a filter's base configuration (arrays are caller-owned objects, reused on purpose)."""
+    c = r.cls_name
+    V = []
+    if c == 'Madgwick':
+        V = [dict(gain=0.1), dict(frequency=50.0), dict(Dt=0.02), dict(gain_imu=0.05, gain_marg=0.06)]
+    elif c == 'Mahony':
+        V = [dict(k_P=2.0), dict(k_I=0.1), dict(frequency=50.0), dict(b0=np.array([0.01, -0.02, 0.005])), dict(Dt=0.02)]
+    elif c == 'EKF':
+        V = [dict(frequency=50.0), dict(noises=[0.1**2, 0.3**2, 0.5**2]), dict(P=np.identity(4) * 0.5), dict(var_acc=0.2), dict(var_gyr=0.05), dict(Dt=0.02)]
+        if r.has_mag:
+            V += [dict(magnetic_ref=40.0), dict(var_mag=0.3), dict(magnetic_ref=np.array([0.5, 0.1, 0.8]))]
+    elif c == 'UKF':
+        V = [dict(alpha=1e-2), dict(beta=0.0), dict(kappa=1.0), dict(frequency=50.0), dict(P=np.eye(4) * 0.02), dict(process_noise_covariance=np.eye(4) * 1e-3),
+             dict(measurement_noise_covariance=np.eye(3) * 0.1), dict(beta=0.0, P=np.eye(4) * 0.02)]
+    elif c == 'AQUA':
+        V = [dict(alpha=0.05), dict(beta=0.05), dict(threshold=0.5), dict(adaptive=True), dict(frequency=50.0), dict(adaptive=True, threshold=0.5)]
+    elif c == 'Fourati':
+        V = [dict(gain=0.5), dict(magnetic_dip=30.0), dict(frequency=50.0)]
+    elif c == 'ROLEQ':
+        V = [dict(weights=np.array([1.0, 2.0])), dict(magnetic_ref=30.0), dict(frequency=50.0), dict(magnetic_ref=np.array([0.5, 0.1, 0.8]))]
+    elif c == 'AngularRate':
+        V = [dict(frequency=50.0), dict(Dt=0.02)] + ([dict(order=2), dict(order=4)] if r.arch == 'series' else [])
+    elif c == 'FKF':
+        V = [dict(sigma_g=0.05), dict(sigma_a=0.05), dict(sigma_m=0.05), dict(Pk=0.5), dict(frequency=50.0)]
+    elif c == 'Complementary':
+        V = [dict(gain=0.5), dict(frequency=50.0), dict(w0=np.array([0.1, -0.2, 0.3]))]
+    return V
+
+
+def _run_cfg(key, cfg):
+    """batch run + streaming run of one configuration -> bytes (executed in whatever process calls it)."""
+    r = rr.by_key(key)
+    g, a, m = history((0, 1, 2, 1, 0, 2))
+    np.random.seed(21)
+    out = [r.output(r.batch(g, a, m, cfg)).tobytes()]
+    if r.step_fn is not None:
+        inst = r.fresh(cfg)
+        q = rq.qunit([0.9, 0.1, -0.2, 0.3])
+        for t in range(1, len(g)):
+            q = r.step(inst, q, g[t], a[t], m[t] if r.has_mag else None)
+            out.append(np.array(q, float).tobytes())
+    return out
+
+
+def _seq(key, cfgs):
+    return [_run_cfg(key, c) for c in cfgs]
+
+
+def job_param_pairs(ctx, key):
+    """Two instances of one class that differ in ONE constructor parameter, in both creation orders, against solo runs made in
+    pristine child processes (state cached at class or module level and keyed incompletely shows here)."""
+    r = rr.by_key(key)
+    A0 = dict(r.cfgs[0])
+    for vi, v in enumerate(_variants(r)):
+        B0 = dict(A0); B0.update(v)
+        vname = ','.join(sorted(v))
+        kk = f'filter={key} varied={vname}'
+        try:
+            solo_a = core.in_fresh_child(_run_cfg, key, A0)
+            solo_b = core.in_fresh_child(_run_cfg, key, B0)
+            ab = core.in_fresh_child(_seq, key, [A0, B0, A0])
+            ba = core.in_fresh_child(_seq, key, [B0, A0, B0])
+        except Exception as ex:
+            ctx.evals += 1
+            ctx.fail(f'{key}: configuration pair run raises', kk, str(ex)[:200], 'completes')
+            continue
+        ctx.expect(ab == [solo_a, solo_b, solo_a], f'{key}: runs after another configuration of the same class equal the solo runs (A, B, A)', kk, None, 'identical bytes')
+        ctx.expect(ba == [solo_b, solo_a, solo_b], f'{key}: runs after another configuration of the same class equal the solo runs (B, A, B)', kk, None, 'identical bytes')
+        ctx.cls('param-pair')
+        ctx.seen((key, vname))
+        ctx.traces += 8
+        ctx.transitions += 8 * 6
+        ctx.states += 8
+    ctx.sample({'filter': key, 'base': {k: (x.tolist() if hasattr(x, 'tolist') else x) for k, x in A0.items()}, 'varied': [sorted(v) for v in _variants(r)]})
+
+
 QUICK_KEYS = ['Madgwick-MARG', 'Mahony-MARG', 'EKF-MARG', 'EKF-IMU-ENU', 'UKF-IMU', 'AQUA-MARG', 'Fourati-MARG', 'ROLEQ-MARG', 'AngularRate-series', 'Mahony-IMU']
 
 
@@ -210,6 +287,7 @@ def run(ctx):
         for j in range(i, len(keys)):
             jobs.append(('job_interleave', (keys, i, j)))
     jobs.append(('job_shared_weights', ()))
+    jobs += [('job_param_pairs', (r.key,)) for r in regs]
     core.run_jobs(ctx, __name__, jobs)
     ctx.notes['interleaved_filter_entries'] = keys
     ctx.notes['schedules_per_pair'] = 140
